@@ -532,7 +532,11 @@ func replay(p *Prop, path string) int {
 	}
 	dir := filepath.Join(root(), ".work", fmt.Sprintf("%s-replay-%d", p.ID, os.Getpid()))
 	os.MkdirAll(dir, 0o755)
-	defer os.RemoveAll(dir)
+	if os.Getenv("VERIF_KEEP_WORK") == "" { // set it to keep the worker's stderr (goroutine dump) of a replayed crash
+		defer os.RemoveAll(dir)
+	} else {
+		fmt.Println("work directory kept:", dir)
+	}
 	r := runShard(p, rp.Tier, rp.Seed, rp.Shard, rp.NShards, dir, rp.CaseNo, nil, 30*time.Minute)
 	m := &Merged{Viol: map[string]*Violation{}, Obs: map[string]int64{}}
 	if r.crashed {
